@@ -281,7 +281,10 @@ class Advertiser(Entity):
                 },
             ),
             Event(
-                time=Instant.from_seconds(time_s + self.evaluation_interval),
+                # Instant + seconds (integer nanoseconds); a float round trip
+                # could truncate back to ``now`` and re-arm the evaluation at a
+                # frozen clock for very small intervals.
+                time=max(self.now + self.evaluation_interval, Instant(self.now.nanoseconds + 1)),
                 event_type="EvaluateCampaigns",
                 target=self,
             ),
